@@ -1,3 +1,5 @@
--- Root of the library: every model, spec, driver and proof module (so that `lake build` checks them all).
+-- Root of the library: every proof module (each imports its models and specs), so that `lake build` checks them all.
+import PolyVerif.Props.C04
+import PolyVerif.Props.C05
 import PolyVerif.Props.C11
-import PolyVerif.Driver.C11
+import PolyVerif.Props.C12
